@@ -67,7 +67,7 @@ func runC14(c *Ctx) {
 		"the getters themselves are checked against the RFC 4861 field table by C02. Not decided: equality of parsed option values with an independent decoder (C02/C08 cover decoding), timing."
 	r.Rule("na-confined", "forged NA only to hunted MACs, after a router was learned, while not closed", 5)
 	r.Rule("na-flags", "override set, router/solicited clear", 3)
-	r.Rule("hunt-admin", "StartHunt filters and idempotence; StopHunt; the hunt list removes the entry found; 6-byte MACs only, own copy", 8)
+	r.Rule("hunt-admin", "StartHunt filters and idempotence; StopHunt; the hunt list removes the entry found; 6-byte MACs only, own copy, one loop per MAC", 10)
 	runNDPSiblings(c)
 	runNDPWideArith(c)
 	r.Rule("router-fields", "each Router field comes from the like-meaning RA getter and is updated by every advertisement", 20)
@@ -84,6 +84,7 @@ func runC14(c *Ctx) {
 	an := locks.Analyse(c.P, c.P.LibFunctions(), isConstructor)
 
 	checkHuntMAC(c, "hunt-admin", start)
+	checkOneLoop(c, "hunt-admin", start, loop, "Handler6.Mutex")
 	// StopHunt relies on AddrList.Del: it removes the entry found, and only that one
 	if del := c.A.Method("", "AddrList", "Del"); del != nil {
 		checkSliceRemoval(c, "hunt-admin", "hunt-admin AddrList.Del removes the entry found and no other", del, "recv.list", func(P string, _ []Guard) bool {
